@@ -20,8 +20,8 @@ RULE = ("(a) form: allocate_code(n), n=0..8, called at once / after the welcome 
         "the three code calls. Non-trivial/distinct = distinct (sub-workload, input) tuples.")
 ASSUMPTIONS = ["os.urandom itself is uniform (quality of the OS generator is out of scope)",
                "unicode decimal digits count as numeric (client and server both use \\d); only U+0020 is a space"]
-FLOORS = {"quick": {"entropy_draws_checked": 9000, "form_codes": 60, "rejections": 600, "completions_checked": 3000, "code_call_sequences": 100, "out_of_order_helper_calls": 40, "codes_entered_by_completion": 100, "typed_words_rejections": 60},
-          "thorough": {"entropy_draws_checked": 9000, "form_codes": 1500, "rejections": 60000, "completions_checked": 100000, "code_call_sequences": 3000, "out_of_order_helper_calls": 1500, "codes_entered_by_completion": 3000, "typed_words_rejections": 2000}}
+FLOORS = {"quick": {"entropy_draws_checked": 9000, "form_codes": 60, "rejections": 600, "completions_checked": 3000, "code_call_sequences": 100, "out_of_order_helper_calls": 40, "codes_entered_by_completion": 100, "typed_words_rejections": 60, "nameplate_edits_after_commit": 10},
+          "thorough": {"entropy_draws_checked": 9000, "form_codes": 1500, "rejections": 60000, "completions_checked": 100000, "code_call_sequences": 3000, "out_of_order_helper_calls": 1500, "codes_entered_by_completion": 3000, "typed_words_rejections": 2000, "nameplate_edits_after_commit": 300}}
 NAMEPLATES = ["1", "7", "42", "999", "1000", "123456789", "007", "0", "00", "٣", "４２"]
 
 
@@ -459,8 +459,41 @@ def run_entry(spec):
                 chosen = np_ + "-" + line
     # finish with an offered completion (or a plain valid code) and check the code event
     final = chosen or (np_ + "-" + rng.choice(odd_l) + "-" + rng.choice(even_l))
+    rollbacks = 0
+    if use_inputter and getattr(ci, "_committed_nameplate", None) == np_ and rng.random() < 0.6:
+        # the user goes back and edits the nameplate after a TAB has already committed (claimed) one: a digit added
+        # or removed, another number, a leading zero.  Either the edit is refused ("cannot go back"), or what the
+        # wormhole ends up using is what the user has on the line - never the old nameplate with the new line
+        words_ = final[len(np_) + 1:]
+        for np2 in rng.sample([np_ + rng.choice("0123456789"), np_[:-1] or "9", "0" + np_, str(int(np_) + 1), rng.choice("123456789") + np_], rng.randint(1, 3)):
+            if np2 == np_:
+                continue
+            edited = np2 + "-" + words_
+            how = rng.choice(["tab", "enter"])
+            rollbacks += 1
+            try:
+                if how == "tab":
+                    ci._commit_and_build_completions(edited[:len(np2) + 1 + rng.randint(0, len(words_))])
+                    refused = False
+                else:
+                    ci.finish(edited)
+                    refused = False
+            except Exception as e:
+                refused = type(e).__name__
+            if refused is False and how == "enter":
+                sch.run(200, until=lambda: b.code is not None)
+                if b.code != edited:
+                    viol.append({"key": "C19/entry/edited-nameplate-accepted-but-old-one-used", "msg": "a TAB had committed nameplate %r; the user changed the line to %r and pressed Enter: accepted, and the wormhole's code is %r" % (np_, edited, b.code), "witness": wit})
+                final = edited
+                break
+            if refused is False and how == "tab":
+                viol.append({"key": "C19/entry/edited-nameplate-completed-after-commit", "msg": "a TAB had committed nameplate %r; on the edited line %r another TAB offered completions instead of refusing" % (np_, edited), "witness": wit})
+            elif refused not in (False, "AlreadyInputNameplateError"):
+                viol.append({"key": "C19/entry/edited-nameplate/" + str(refused), "msg": "committed %r, edited line %r, %s: %s" % (np_, edited, how, refused), "witness": wit})
     try:
-        if use_inputter:
+        if b.code is not None:
+            pass
+        elif use_inputter:
             ci.finish(final)
         else:
             helper.choose_words(final[len(np_) + 1:])
@@ -477,7 +510,7 @@ def run_entry(spec):
         o.close()
     sch.drain(60.0, 6000, until=lambda: all(o.closed for o in others + [b]))
     world.finish()
-    return {"violations": viol, "nontrivial": ["entry", spec["seed"], final, use_inputter], "counters": {"completions_checked": checked, "out_of_order_helper_calls": order_calls[0], "nameplate_list_shrunk": shrunk, "codes_entered_by_completion": tabbed},
+    return {"violations": viol, "nontrivial": ["entry", spec["seed"], final, use_inputter], "counters": {"completions_checked": checked, "out_of_order_helper_calls": order_calls[0], "nameplate_list_shrunk": shrunk, "codes_entered_by_completion": tabbed, "nameplate_edits_after_commit": rollbacks},
             "sample": {"kind": "entry", "server_nameplates": sorted(server_nps), "final_code": final, "via": wit["via"], "completions_checked": checked}}
 
 
